@@ -91,6 +91,9 @@ func Run(r *common.Run) error {
 	// every fault point of every standard handshake
 	for bi, base := range handshakes() {
 		clean := e.Do(base, "handshake")
+		if c01.Aborted() {
+			break
+		}
 		if clean.Outcome != "done" {
 			r.Fail("harness", "handshake-not-clean", []string{"C04 " + base.Line(clean)}, "the fault-free handshake does not complete: "+clean.Obs(base.Cfg))
 			continue
@@ -128,6 +131,78 @@ func Run(r *common.Run) error {
 					cs.Cfg[i].NegErr = true
 				}
 				e.Do(cs, "fault-callback")
+			}
+		}
+		// The kind of error value is a dimension of every injected failure: a time-out
+		// (net.Error) with the context alive, a temporary error, a closed connection,
+		// context.DeadlineExceeded / context.Canceled / io.EOF themselves. Whatever the
+		// value, a failed step fails the establishment. Quick tier: the time-out kind and one
+		// rotating kind per fault point; thorough: all of them.
+		for k := 0; k <= ops; k++ {
+			for _, ek := range errKindsFor(r, bi+k) {
+				cs := base
+				cs.ErrKind = ek
+				cs.Fault = fmt.Sprint(k)
+				e.Do(cs, "fault-io/"+string(ek))
+				if k%3 == 0 {
+					cs.Fault = fmt.Sprint(k, "+")
+					e.Do(cs, "fault-io/"+string(ek))
+				}
+			}
+		}
+		for i := range base.Cfg {
+			for kind := 0; kind < 3; kind++ {
+				for _, ek := range errKindsFor(r, bi+i+kind) {
+					cs := base
+					cs.ErrKind = ek
+					cs.Cfg = append([]c01.Beh(nil), base.Cfg...)
+					switch kind {
+					case 0:
+						cs.Cfg[i].ListErr = true
+					case 1:
+						cs.Cfg[i].ParseErr = true
+					default:
+						cs.Cfg[i].NegErr = true
+					}
+					e.Do(cs, "fault-callback/"+string(ek))
+				}
+			}
+		}
+		// The transport is a dimension: the same handshake on a plain io.ReadWriter (no
+		// deadlines, nothing for the context watcher to act on). Failing operations, ends of
+		// input, failing callbacks and cancellation instants must still fail the establishment;
+		// after a cancellation reads and writes go on until the check behind the step.
+		{
+			raw := base
+			raw.Raw = true
+			e.Do(raw, "raw/handshake")
+			for k := 0; k <= ops; k++ {
+				cs := raw
+				cs.Fault = fmt.Sprint(k)
+				e.Do(cs, "raw/fault-io")
+				for _, ek := range errKindsFor(r, bi+k) {
+					cs.ErrKind = ek
+					e.Do(cs, "raw/fault-io/"+string(ek))
+				}
+			}
+			for n := 0; n < len(base.Script); n++ {
+				cs := raw
+				cs.Script = base.Script[:n]
+				e.Do(cs, "raw/cut")
+			}
+			for i := range base.Cfg {
+				cs := raw
+				cs.Cfg = append([]c01.Beh(nil), base.Cfg...)
+				cs.Cfg[i].NegErr = true
+				e.Do(cs, "raw/fault-callback")
+			}
+			for _, kind := range []byte{'c', 'p'} {
+				for n := 0; n <= len(clean.Events); n++ {
+					cs := raw
+					cs.Ctx = kind
+					cs.Fault = fmt.Sprintf("C%d", n)
+					e.Do(cs, "raw/cancel/"+string(kind))
+				}
 			}
 		}
 		// Cancellation, with every kind of context whose Done() can fire: WithCancel, a far
@@ -170,9 +245,13 @@ func Run(r *common.Run) error {
 			e.Do(cs, "blocked-forever")
 		}
 	}
-	r.Exhaustive = append(r.Exhaustive, "every read/write index (single and permanent failure), every end of input, every failing callback, every cancellation instant and every operation blocking with cancellation while blocked (each with four kinds of context: WithCancel, far deadline + cancel, timeout in a cancelled parent, near deadline expiring), of 10 instrumented standard handshakes (STARTTLS+auth+voluntary+bind; both roles; TCP/WebSocket; c2s/s2s; pre-secured)")
-	runReal(r)
-	runComponent(e)
+	r.Exhaustive = append(r.Exhaustive, "every read/write index (single and permanent failure), every end of input, every failing callback, each failure with the kinds of error value "+errKindsNote(r)+", every cancellation instant and every operation blocking with cancellation while blocked (each with four kinds of context: WithCancel, far deadline + cancel, timeout in a cancelled parent, near deadline expiring), and the same on a plain io.ReadWriter without deadlines (failing operations, ends of input, failing Negotiate, cancellation instants), of 10 instrumented standard handshakes (STARTTLS+auth+voluntary+bind; both roles; TCP/WebSocket; c2s/s2s; pre-secured)")
+	if !c01.Aborted() {
+		runReal(r)
+	}
+	if !c01.Aborted() {
+		runComponent(e)
+	}
 	n := r.Pick(3000, 40000)
 	for i := 0; i < n; i++ {
 		cs := c01.RandomCase(r.Rnd, true)
@@ -184,6 +263,12 @@ func Run(r *common.Run) error {
 		if cs.Fault != "-" && r.Rnd.Chance(1, 2) {
 			cs.Ctx = []byte{'d', 'p'}[r.Rnd.Intn(2)]
 		}
+		if r.Rnd.Chance(1, 2) {
+			cs.ErrKind = c01.ErrKinds[r.Rnd.Intn(len(c01.ErrKinds))]
+		}
+		if !strings.Contains(cs.Fault, "B") && !strings.Contains(cs.Fault, "H") && !cs.Block && r.Rnd.Chance(1, 4) {
+			cs.Raw = true
+		}
 		if (strings.HasPrefix(cs.Fault, "C") || strings.HasPrefix(cs.Fault, "B")) && c01.SkipForStalls() {
 			continue
 		}
@@ -194,6 +279,23 @@ func Run(r *common.Run) error {
 	}
 	r.Notes = append(r.Notes, fmt.Sprintf("%d negotiation runs of the real NewSession/ReceiveSession", e.N))
 	return nil
+}
+
+// errKindsFor: the kinds of error value a fault point is run with besides the plain one: all
+// of them in the thorough tier; the time-out kind plus one rotating kind in the quick tier.
+func errKindsFor(r *common.Run, i int) []byte {
+	if !r.Quick() {
+		return c01.ErrKinds
+	}
+	rot := c01.ErrKinds[1+(i+int(r.Seed%7))%(len(c01.ErrKinds)-1)]
+	return []byte{'T', rot}
+}
+
+func errKindsNote(r *common.Run) string {
+	if r.Quick() {
+		return "plain, net.Error time-out with a live context, and one of {temporary net.Error, closed connection, io.ErrUnexpectedEOF, context.DeadlineExceeded, context.Canceled, io.EOF} in rotation"
+	}
+	return "plain, net.Error time-out with a live context, temporary net.Error, closed connection, io.ErrUnexpectedEOF, context.DeadlineExceeded, context.Canceled, io.EOF"
 }
 
 // witnesses are minimal failing inputs of C04 found so far.
